@@ -22,7 +22,16 @@ PARSED_FILES = [
 
 
 def start(s, rng, slot=0):
-    c = rng.randrange(5)
+    c = rng.randrange(6)
+    if c == 5:
+        # the object a directory read hands to the caller (econf_readDirs: a main file, sometimes with a drop-in)
+        d = b"/lay%d" % slot
+        s.file(d + b"/usr/cfg.conf", rng.choice(PARSED_FILES[:3] + PARSED_FILES[4:]))
+        if rng.random() < 0.5:
+            s.file(d + b"/etc/cfg.conf.d/a.conf", rng.choice([b"# off\n", b"x=9\n[A]\nnew=1\n"]))
+        s.add("RD", slot, h(d + b"/usr"), h(d + b"/etc"), h(b"cfg"), h(b"conf"), h(b"="), h(b"#"))
+        s.add("RAW", slot)
+        return c
     if c == 4:
         # the merge of two parsed files
         for i, sl in enumerate((slot + 20, slot + 21)):
@@ -91,7 +100,15 @@ def query_op(s, rng, slot, with_write=True):
         s.mkdir(b"/out")
         s.add("W", slot, h(b"/out"), h(b"w.conf"))
     else:
-        s.add("M", 9, slot, slot)
+        # the object as an input of a merge: with itself, as the base and as the override of another object
+        r = rng.randrange(3)
+        if r == 0:
+            s.add("M", 9, slot, slot)
+        else:
+            s.file(b"/other.conf", b"x=other\n[A]\nx=o2\nq=3\n[Z]\nz=1\n")
+            s.add("RF", 8, h(b"/other.conf"), h(b"="), h(b"#"))
+            s.add("M", 9, *((slot, 8) if r == 1 else (8, slot)))
+            s.add("FREE", 8)
         s.add("FREE", 9)
 
 
